@@ -23,7 +23,7 @@ def model_input(op, impl):
     m = _OK.match(impl)
     if not m:
         return "skip"
-    nums = op.rsplit('"', 1)[1].split()
+    nums = [t for t in op.rsplit('"', 1)[1].split() if not t.startswith("p=")]   # p=<hex>: query parameters, read by the harness
     if len(nums) != 4:
         return "skip"
     return "sem %s %s %s %s %s %s %s %s" % (nums[0], nums[1], nums[2], nums[3], m.group(1), m.group(2), m.group(3), m.group(4))
@@ -230,7 +230,7 @@ SPEC = {
             "statements, one per join order (`S2.Query.trWith km false / true`): which one the translator picks is a selectivity heuristic over its Go syntax tree that scores only "
             "pointer-typed nodes, which the reflection rendering does not determine, so the direction is NOT modelled; the theorems hold for both and the tie accepts either (the "
             "record counts how often the model's own approximation `flipOpt` names the order taken) — and on every generated graph satisfying "
-            "the stage's hypothesis (GraphOK for S1 / S1c, GraphOK2 for S2b / S2c / S2n / S2L) the two evaluators must agree (S2L: the statement's rows must be a sub-bag of min(k, n) rows of the base query's rows). tie 2 (suite c01, SEARCH not proof): FOCUSED FAMILIES (harness/focused.go: variable-length step + >= 2 fixed hops with every subset of the suffix nodes already bound, "
+            "the stage's hypothesis (GraphOK for S1 / S1c, GraphOK2 for S2b / S2c / S2n / S2L) the two evaluators must agree (S2L: the statement's rows must be a sub-bag of min(k, n) rows of the base query's rows). tie 2 (suite c01, SEARCH not proof): the REFERENCE reading of a query does not inherit what the DAWGS frontend listener makes of the text where that can be avoided: the direction of every ORDER BY item is read from the TEXT (harness/sortdir.go: the generated parser alone, an oC_SortItem is descending iff a keyword child spells DESC / DESCENDING in any letter case) and overrides SortItem.Ascending in the S-expression given to Cy.eval, while the translator under test gets the frontend's model unchanged; generators spell the direction in every grammar form (asc / ASCENDING / desc / DESCENDING / mixed case / default). Pattern property maps given as a PARAMETER (`(a $p)`, `-[r $p]->`): the op line carries the parameter values (p=<hex JSON>), the translator gets them, the reference reads the literal map they stand for, and Sql.eval evaluates `properties @> @pi0::jsonb` with the jsonb value of Result.Parameters (jsonb containment modelled for an object on the right whose values are scalars; other operand forms are `unmodelled`). FOCUSED FAMILIES (harness/focused.go: every spelling of the sort direction in RETURN and WITH, single and mixed keys, with SKIP / LIMIT (family sort-keyword); a parameter property map at every element position of a hop, a chain and several MATCH clauses, next to a second parameter map or a literal map (family param-map: every OTHER element must stay unconstrained); variable-length step + >= 2 fixed hops with every subset of the suffix nodes already bound, "
             "aggregate-only RETURN incl. collect / size(collect()) with LIMIT and no ORDER BY — one output row, so the LIMIT is deterministic —, aggregate traversal counts, collect membership; a NAMED PATH bound by a MATCH whose own WHERE holds a pattern predicate, over patterns the optimiser reverses, the path / "
             "nodes(p) / relationships(p) / length(p) observed directly and through WITH (path VALUES are compared as ordered node and relationship lists; a result that is the Cypher "
             "result with every path reversed is the symptom class `path-in-reverse-order`, keyed by the enabling query shape); string predicates and equalities whose literal contains "
@@ -253,6 +253,10 @@ SPEC = {
                      "relationship uniqueness per MATCH, null ordering); deviations of the emitted SQL are expressed as named switches only to EXPLAIN a difference, never to accept it",
                      "encode : KindMap -> Graph -> Db (Model/Graph.lean) is the storage layout of schema_up.sql (node / edge / kind tables, graph_id 0)",
                      "harness/sexp.go reflection rendering of the pgsql AST and of the parsed Cypher model, Driver/SqlSexp.lean and Driver/ReadCy.lean readers (unknown node -> unmodelled)",
+                     "the parsed Cypher model comes from the DAWGS frontend (the code under test): where the reference can read the TEXT instead it does — ORDER BY directions (harness/sortdir.go, generated parser "
+                     "only); everything else of the reading (pattern structure, operators, literals) is the frontend's and is covered by C07 / C08, not here",
+                     "a parameter property map is shown to the reference as the literal map of the supplied parameter value (harness/sortdir.go refSexpP); jsonb containment `@>` is modelled only for an object "
+                     "right operand with scalar values (SqlVal.lean jsonContainsFlat, from 8.14.3), the JSON text of a jsonb parameter is read by Driver/C01.lean JsonText",
                      "the comparison of client-visible values (RVal: jsonb scalars decoded, composites as graph entities) in Driver/C01.lean"],
     "assumptions": ["GraphOK (theorems): node ids unique, kind map injective, no property stored as JSON null; decidable (graphOKb), evaluated on every generated graph, "
                     "graphs outside it are still evaluated and counted",
